@@ -337,13 +337,15 @@ func run(c *props.Ctx) {
 func memoryAdaptive(c *props.Ctx) {
 	type mr struct{ lowT, highT, lowM, highM int64 }
 	var rules []mr
-	for _, lt := range []int64{1, 2, 10, 1000} {
-		for _, ht := range []int64{1, 5, 999} {
+	// up to realistic byte counts (hundreds of MiB; the high water mark must not exceed the machine's memory) and thresholds whose product with them
+	// leaves the 64-bit integer range
+	for _, lt := range []int64{1, 2, 10, 1000, 1 << 40, 1 << 62} {
+		for _, ht := range []int64{1, 5, 999, 1 << 30} {
 			if ht >= lt {
 				continue
 			}
-			for _, lm := range []int64{1, 100, 1024} {
-				for _, hm := range []int64{2, 101, 1000, 4096} {
+			for _, lm := range []int64{1, 100, 1024, 128 << 20} {
+				for _, hm := range []int64{2, 101, 1000, 4096, 384 << 20} {
 					if lm >= hm {
 						continue
 					}
@@ -363,7 +365,7 @@ func memoryAdaptive(c *props.Ctx) {
 		}
 		tc := flow.VerifControllers("m")[0].TC
 		mid := (r.lowM + r.highM) / 2
-		readings := []int64{0, r.lowM - 1, r.lowM, r.lowM + 1, mid, r.highM - 1, r.highM, r.highM + 1, r.highM * 10}
+		readings := []int64{0, r.lowM - 1, r.lowM, r.lowM + 1, r.lowM + (r.highM-r.lowM)/28, mid, r.highM - (r.highM-r.lowM)/3, r.highM - 1, r.highM, r.highM + 1, r.highM * 10}
 		sort.Slice(readings, func(i, j int) bool { return readings[i] < readings[j] })
 		prev := math.Inf(1)
 		for _, m := range readings {
@@ -386,7 +388,7 @@ func memoryAdaptive(c *props.Ctx) {
 			case got > float64(r.lowT)+1e-9 || got < float64(r.highT)-1e-9:
 				what = fmt.Sprintf("memory %d: effective threshold %v outside [%d,%d]", m, got, r.highT, r.lowT)
 			}
-			if what == "" {
+			if what == "" && got <= 1000 {
 				// the rule really admits floor(threshold) single-token requests in one window
 				env.Clock.SetMs(T0 + int64(n)*5000)
 				adm := 0
